@@ -309,7 +309,7 @@ class C07(Prop):
     theorems = ["NV.C07.visibility_table", "NV.C07.visibility_any_flags", "NV.C07.visibility_lifted",
                 "NV.C07.driver_origins_never_refused", "NV.C07.bsearch_correct", "NV.C07.find_function_correct",
                 "NV.C07.find_offsets_are_path_sums", "NV.C07.cache_transparent_step", "NV.C07.cache_transparent",
-                "NV.C07.frame_offsets_correct", "NV.C07.built_alias_flags_agree", "NV.C07.inherit_flags_rule_is_spec"]
+                "NV.C07.frame_offsets_correct", "NV.C07.built_alias_flags_agree", "NV.C07.built_flags_agree", "NV.C07.inherit_flags_rule_is_spec"]
     witness_theorems = ["NV.C07.Witness.old_cache_not_transparent"]
     consts = [("applyCacheBits", "APPLY_CACHE_BITS"),
               ("nameInherited", "NAME_INHERITED"), ("nameUndefined", "NAME_UNDEFINED"),
